@@ -20,6 +20,8 @@ enum Term {
     CallF(usize, i64),
     /// `g_j(i64, K_l)` / `g_j(T_m, K_l)`
     CallG(usize, Option<usize>, usize),
+    /// `r_j(n)` — a recursive function (factorial)
+    CallR(usize, i64),
 }
 
 #[derive(Clone, Debug)]
@@ -42,8 +44,12 @@ enum Def {
     Generic,
     /// `mk{i} :: (x: i64) -> S_j { S_j.{ a = x, b = K_l } }`
     Mk { strukt: usize, k: usize },
+    /// `r{i} :: (n: i64) -> i64 { if n <= 1 { 1 } else { n * r{i}(n - 1) } }` (corpus only)
+    RecFn,
     /// `N{i} : usize : n;`
     Len(u64),
+    /// `N{i} :: N{j};` — a length constant that is another length constant (bare name / qualified)
+    LenAlias(usize),
     /// `len{i} :: () -> i64 { a : [N_j]i64; i64.(a.len) }`
     LenFn(usize),
 }
@@ -62,8 +68,9 @@ fn name(defs: &[Def], i: usize) -> String {
         Def::Struct(_) => format!("S{i}"),
         Def::Fn { .. } => format!("f{i}"),
         Def::Generic => format!("g{i}"),
+        Def::RecFn => format!("r{i}"),
         Def::Mk { .. } => format!("mk{i}"),
-        Def::Len(_) => format!("N{i}"),
+        Def::Len(_) | Def::LenAlias(_) => format!("N{i}"),
         Def::LenFn(_) => format!("len{i}"),
     }
 }
@@ -83,19 +90,14 @@ impl Graph {
             let structs = g.of_kind(i, &|d| matches!(d, Def::Struct(_)));
             let fns = g.of_kind(i, &|d| matches!(d, Def::Fn { .. }));
             let generics = g.of_kind(i, &|d| matches!(d, Def::Generic));
-            let lens = g.of_kind(i, &|d| matches!(d, Def::Len(_)));
+            let lens = g.of_kind(i, &|d| matches!(d, Def::Len(_) | Def::LenAlias(_)));
             let opt = |rng: &mut Rng, v: &Vec<usize>| if v.is_empty() || rng.chance(1, 4) { None } else { Some(*rng.pick(v)) };
             let d = match rng.below(100) {
                 0..=11 => Def::ConstLit(1 + rng.below(9) as i64, opt(rng, &aliases)),
                 12..=14 => Def::Untyped(1 + rng.below(9) as i64),
                 15..=39 => {
                     let typed = rng.chance(2, 3);
-                    // KNOWN FINDING (corpus entry `untyped-const-arithmetic-in-typed-comptime`): arithmetic
-                    // on an untyped (i32) global constant inside a comptime block annotated i64 fails
-                    // Cranelift verification as soon as another comptime block reads the result; typed
-                    // blocks therefore draw their constants from the typed ones only
-                    let typed_consts = g.of_kind(i, &|d| matches!(d, Def::ConstLit(..) | Def::Comptime { .. }));
-                    let consts = if typed { typed_consts } else { consts.clone() };
+                    // (typed blocks may mix in untyped i32 constants again: fixed by 6539c68)
                     let nt = 1 + rng.below(3);
                     let mut terms = vec![];
                     for _ in 0..nt {
@@ -125,7 +127,8 @@ impl Graph {
                 61..=78 => Def::Fn { param: opt(rng, &aliases), k: opt(rng, &consts), callee: opt(rng, &fns) },
                 79..=84 if generics.len() < 2 => Def::Generic,
                 85..=90 if !structs.is_empty() => Def::Mk { strukt: *rng.pick(&structs), k: *rng.pick(&consts) },
-                91..=94 => Def::Len(1 + rng.below(4)),
+                91..=93 => Def::Len(1 + rng.below(4)),
+                94 if !lens.is_empty() => Def::LenAlias(*rng.pick(&lens)),
                 95..=99 if !lens.is_empty() => Def::LenFn(*rng.pick(&lens)),
                 _ => Def::Alias(opt(rng, &aliases)),
             };
@@ -143,8 +146,10 @@ impl Graph {
                 Def::Struct(_) => "globals:struct-over-alias",
                 Def::Fn { .. } => "globals:function",
                 Def::Generic => "globals:generic",
+                Def::RecFn => "globals:recursive-function",
                 Def::Mk { .. } => "globals:struct-constructor-fn",
                 Def::Len(_) => "globals:usize-const",
+                Def::LenAlias(_) => "globals:usize-const-that-is-another-const",
                 Def::LenFn(_) => "globals:array-length-from-const",
             });
         }
@@ -167,11 +172,19 @@ impl Graph {
             Term::KTimes(j, m) => self.const_val(*j) * m,
             Term::CallF(j, x) => self.fn_val(*j, *x),
             Term::CallG(_, _, l) => 2 * self.const_val(*l),
+            Term::CallR(_, n) => (1..=*n).product(),
         }
     }
     fn fn_val(&self, i: usize, x: i64) -> i64 {
         match &self.defs[i] {
             Def::Fn { k, callee, .. } => x + k.map(|k| self.const_val(k)).unwrap_or(0) + callee.map(|c| self.fn_val(c, x)).unwrap_or(0),
+            _ => unreachable!(),
+        }
+    }
+    fn len_val(&self, i: usize) -> u64 {
+        match &self.defs[i] {
+            Def::Len(v) => *v,
+            Def::LenAlias(j) => self.len_val(*j),
             _ => unreachable!(),
         }
     }
@@ -183,11 +196,8 @@ impl Graph {
                 Def::Fn { .. } => out.push(self.fn_val(i, 1).to_string()),
                 Def::Generic => out.push("10".to_string()),
                 Def::Mk { k, .. } => out.push((4 + self.const_val(*k)).to_string()),
-                Def::LenFn(n) => match &self.defs[*n] {
-                    Def::Len(v) => out.push(v.to_string()),
-                    _ => unreachable!(),
-                },
-                Def::Len(_) | Def::Alias(_) | Def::Struct(_) => {}
+                Def::LenFn(n) => out.push(self.len_val(*n).to_string()),
+                Def::Len(_) | Def::LenAlias(_) | Def::Alias(_) | Def::Struct(_) | Def::RecFn => {}
             }
         }
         out
@@ -214,6 +224,7 @@ impl Graph {
                 Term::KTimes(j, m) => format!("{} * {m}", r(*j, from)),
                 Term::CallF(j, x) => format!("{}({x})", r(*j, from)),
                 Term::CallG(j, a, l) => format!("{}({}, {})", r(*j, from), ty(a, from), r(*l, from)),
+                Term::CallR(j, n) => format!("{}({n})", r(*j, from)),
             }
         };
         let mut texts: Vec<String> = (0..nfiles)
@@ -274,11 +285,13 @@ impl Graph {
                     format!("{n} :: (x: {}) -> i64 {{ {body} }}", ty(param, f))
                 }
                 Def::Generic => format!("{n} :: (comptime T: type, x: T) -> T {{ x + x }}"),
+                Def::RecFn => format!("{n} :: (k: i64) -> i64 {{ if k <= 1 {{ 1 }} else {{ k * {n}(k - 1) }} }}"),
                 Def::Mk { strukt, k } => {
                     let s = r(*strukt, f);
                     format!("{n} :: (x: i64) -> {s} {{ {s}.{{ a = x, b = {} }} }}", r(*k, f))
                 }
                 Def::Len(v) => format!("{n} : usize : {v};"),
+                Def::LenAlias(j) => format!("{n} :: {};", r(*j, f)),
                 Def::LenFn(l) => format!("{n} :: () -> i64 {{ a : [{}]i64; i64.(a.len) }}", r(*l, f)),
             };
             texts[f].push_str(&line);
@@ -299,7 +312,7 @@ fn shuffle<T>(rng: &mut Rng, v: &mut [T]) {
 fn corpus() -> Vec<(Graph, Vec<usize>, Vec<usize>, usize, Option<&'static str>)> {
     // main.capy: T1 :: i64; main uses m1.K0 and m1.T2;   m1.capy: K0 (untyped), T2 :: m0.T1, f3 (x: T2)
     let g = Graph { defs: vec![Def::Untyped(7), Def::Alias(None), Def::Alias(Some(1)), Def::Fn { param: Some(2), k: Some(0), callee: None }] };
-    // `U0 :: 3; K1 : i64 : comptime { U0 * 2 }; K2 : i64 : comptime { K1 }` (known finding)
+    // `U0 :: 3; K1 : i64 : comptime { U0 * 2 }; K2 : i64 : comptime { K1 }` (failed Cranelift verification until 6539c68)
     let h = Graph {
         defs: vec![Def::Untyped(3), Def::Comptime { typed: true, terms: vec![Term::KTimes(0, 2)] }, Def::Comptime { typed: true, terms: vec![Term::K(1)] }],
     };
@@ -309,11 +322,26 @@ fn corpus() -> Vec<(Graph, Vec<usize>, Vec<usize>, usize, Option<&'static str>)>
     // constant): `K1 : T0 : 40; A2 :: K1; T0 :: i64;` — one file, and with T0 in an imported file
     let o1 = Graph { defs: vec![Def::Alias(None), Def::ConstLit(40, Some(0)), Def::AliasConst(1)] };
     let o2 = Graph { defs: vec![Def::Alias(None), Def::ConstLit(40, Some(0)), Def::AliasConst(1)] };
+    // an array length that is a constant of another file which is itself a bare-name alias of a
+    // constant of that file (`m1.N1` with `N1 :: N0;` in m1.capy; seeded changes C15_2 / C20_2)
+    let la = Graph { defs: vec![Def::Len(3), Def::LenAlias(0), Def::LenFn(1)] };
+    // KNOWN FINDING: `X :: comptime { Y + 1 }; Y :: comptime { fact(3) };` with a recursive `fact` is
+    // rejected ("circular definition, Y has not yet been resolved") when X is written before Y and
+    // accepted the other way round
+    let rc = Graph {
+        defs: vec![
+            Def::RecFn,
+            Def::Comptime { typed: true, terms: vec![Term::CallR(0, 3)] },
+            Def::Comptime { typed: true, terms: vec![Term::K(1), Term::Lit(1)] },
+        ],
+    };
     vec![
+        (rc, vec![0, 2, 1, usize::MAX], vec![0, 0, 0], 1, Some("comptime-chain-through-recursive-function")),
+        (la, vec![0, 1, 2, usize::MAX], vec![1, 1, 0], 2, None),
         (o1, vec![1, 2, 0, usize::MAX], vec![0, 0, 0], 1, None),
         (o2, vec![1, 2, usize::MAX, 0], vec![1, 0, 0], 2, None),
         (g, vec![1, usize::MAX, 0, 2, 3], vec![1, 0, 1, 0], 2, None),
-        (h, vec![0, 1, 2, usize::MAX], vec![0, 0, 0], 1, Some("untyped-const-arithmetic-in-typed-comptime")),
+        (h, vec![0, 1, 2, usize::MAX], vec![0, 0, 0], 1, None),
         (w, vec![usize::MAX, 1, 0], vec![0, 0], 1, None),
     ]
 }
